@@ -3,7 +3,8 @@ from . import pcommon
 NEED = ('accept-D', 'accept-R', 'accept-forced-by-timeout', 'timeout-while-owed', 'password-bang', 'reply-OKE', 'reply-NO', 'soft-done')
 
 def plan(tier):
-    return pcommon.plan_solo(tier) + [pcommon.reload_search(tier)]      # incl. reloads of the service table while the client waits
+    # incl. reloads of the service table while the client waits; a refusal from a service the reload dropped still counts
+    return [pcommon.reload_search(tier, 'refuse')] + pcommon.plan_solo(tier) + [pcommon.reload_search(tier)]
 
 def main(tier):
     return pcommon.run_plan('C02', tier, plan(tier), ('C02.',), NEED)
